@@ -86,6 +86,7 @@ func (q *qprobe) Settings() controller.QSettings {
 }
 func (q *qprobe) Reconcile(ctx context.Context, _ *zap.Logger, r controller.QRuntime, p resource.Pointer) error {
 	q.n++
+	verif.Assert(p.Type() == tres.TypeA || q.twoPrimary, "a queue controller is reconciled for items of its primary inputs only")
 	if p.Type() == tres.TypeB {
 		if b, err := r.Get(ctx, resource.NewMetadata(tres.NS, tres.TypeB, p.ID(), resource.VersionUndefined)); err == nil {
 			q.lastB[p.ID()] = b.Metadata().Version().Value()
